@@ -92,6 +92,10 @@ def cases(tier, seed):
     # --- Riks on the point-mass scene (contact never closes / closes)
     for load in ("stay_open", "press", "stay_closed"):
         add(kind="riks_pm", load=load, spring="force", stiff="stiff", la_arc0=1e-2, iter_goal=4, max_load_steps=60, places=P3)
+    # the same scene assembled with initial velocities and dampers: a static solver works at zero velocity (seeded C23-f for Newton, C23-k for Riks)
+    add(kind="riks_pm", load="stay_open", spring="kelvin_voigt_u0", stiff="stiff", la_arc0=1e-2, iter_goal=4, max_load_steps=60, places=P3)
+    add(kind="riks_pm", load="stay_open", spring="kelvin_voigt_u0", stiff="stiff", la_arc0=1e-2, iter_goal=3, max_load_steps=60, places=P3, no_contact=True)
+    add(kind="riks_pm", load="big", spring="kelvin_voigt_u0", stiff="soft", la_arc0=1e-2, iter_goal=3, max_load_steps=200, places=P3, no_contact=True)
     # --- cantilevers, Newton
     nels = (1, 2, 4) if thorough else (2,)
     for nel in nels:
@@ -214,7 +218,7 @@ def _build(case, place):
     if k == "rod_contact":
         return S.build_cantilever(case["form"], case["load"], place, seed, contact_gap=case["gap"])
     if k in ("pm_plane", "riks_pm"):
-        return S.build_pm_plane(case["load"], place, case["spring"], seed, case["stiff"])
+        return S.build_pm_plane(case["load"], place, case["spring"], seed, case["stiff"], contact=not case.get("no_contact", False))
     if k == "rb_arm":
         return S.build_rb_arm(case["load"], place, case["spring"], case["contact"], seed)
     if k == "riks_truss":
